@@ -16,4 +16,4 @@ CONSTANTS
   StdMax = 1
   UseStdClasses = {"Pair", "Triple", "Option", "List"}
   StdLayouts = {"plain", "trail", "wrap-last"}
-INVARIANTS ReadsBack NewlineFixGood GlueFixGoodIffSeparated GlueOkNeedsSemicolon ApplySane Emit
+INVARIANTS ReadsBack NewlineFixGood NewlineFixKeepsComments GlueFixGoodIffSeparated GlueOkNeedsSemicolon ApplySane Emit
